@@ -533,6 +533,12 @@ def resolve_flags(paths: List[Path]) -> List[Path]:
                             feasible = False
                             break
                         continue
+                    if isinstance(env[inner.left.id], ast.Call):
+                        # `m = re.match(...)` ... `if m is None`: the test is on the call's result
+                        new_c = ast.copy_location(ast.Compare(env[inner.left.id], inner.ops, inner.comparators), inner)
+                        new_t = ast.copy_location(ast.UnaryOp(ast.Not(), new_c), t) if neg else new_c
+                        events.append(("c", new_t, pol, ev[3]) if len(ev) > 3 else ("c", new_t, pol))
+                        continue
                     events.append(ev)
                     continue
                 if isinstance(inner, ast.Name) and inner.id in env and isinstance(env[inner.id], (ast.JoinedStr, ast.BinOp)):
